@@ -195,4 +195,13 @@ def responseSize (reqMethod : Bytes) (lines : List Bytes) : Option Size :=
       | some .chunked => some .chunked
       | none => none
 
+/-- `HttpUpstreamProxy.receive_handshake_data` (after fix 10ec47d6b): the third inbound HTTP/1 reader — the parent proxy's
+    reply to the CONNECT the proxy sent.  Only the head is read: a 2xx status opens the tunnel (`msg`; what is left in the
+    buffer is handed to the tunnel, here it stays buffered in `wait`), any other status or a malformed head fails the
+    connection attempt (`reject`, closed). -/
+def handshakeSize (lines : List Bytes) : Option Size :=
+  match readResponseHead lines with
+  | none => none
+  | some r => if 200 ≤ r.status ∧ r.status < 300 then some (.len 0) else none
+
 end MitmVerif.C02
